@@ -45,6 +45,30 @@ def random_cases(tier_, seed_):
         else:
             opts["merge"] = [["percent", rng.choice([0.5, 0.75, 1.0])], ["number", rng.choice([2, 3, 4])]]
         cases.append({"kind": "random", "i": i, "models": [["Root", jc["samples"]]], "opts": opts})
+    # pairs sitting exactly on / just beside a comparator boundary (thresholds as the CLI computes them: float(n) / 100)
+    nb = 600 if tier_ == "quick" else 6000
+    for i in range(nb):
+        rng = rng_for(PROP, "boundary", seed_, i)
+        pct = rng.choice([50, 60, 70, 75, 80, 90, 95, 32, 55, 56, 68, 92, 25, 40, 20, 10, 99, 100, 33, 66, 67])
+        den = rng.choice([2, 3, 4, 5, 8, 10, 12, 20, 25])
+        num = round(pct * den / 100)
+        shared = max(0, min(den, num + rng.choice([0, 0, 0, -1, 1])))
+        union = den
+        only_a = rng.randint(0, union - shared)
+        only_b = union - shared - only_a
+        ka = [f"s{j}" for j in range(shared)] + [f"a{j}" for j in range(only_a)]
+        kb = [f"s{j}" for j in range(shared)] + [f"b{j}" for j in range(only_b)]
+        if not ka or not kb:
+            continue
+        sample = {"left": {k: 1 for k in ka}, "right": {k: "x" for k in kb}, "third": {"zz": 1}}
+        if rng.random() < 0.3:
+            sample["more"] = [{k: 1 for k in ka[: max(1, len(ka) - 1)]}]
+        policy = [["percent", float(pct) / 100]] if rng.random() < 0.7 else [["number", shared + rng.choice([0, 1])]]
+        if rng.random() < 0.15:
+            policy.append(["number", max(1, shared + rng.choice([0, 1, 2]))])
+        cases.append({"kind": "random", "i": n + i, "boundary": True, "models": [["Root", [sample]]],
+                      "opts": {"framework": "base", "flat": True, "merge": policy, "max_literals": 10, "convert_unicode": True,
+                               "registry": ["IntString", "FloatString", "BooleanString"], "dkf": [], "dkr": []}})
     return cases
 
 
